@@ -10,7 +10,8 @@ harness-supplied `unicode.ToLower` oracle: the query side reads `Rn.lower` (a co
 `TRn.lowerBytes` / `lower2Bytes`, tied by `SV.Tok.WF` (`lowerBytes = enc r.lower`).  Added here: the remaining builder pair
 (keyword), the `_exists_` rule (case-sensitive whatever the configuration, both parsers, matching the unlowered index
 token), and the one place where the two parsers'
-case rules differ (range bounds; legacy side now parametrised by `rangeLower`: HEAD = false, proposed repair = true).
+case rules DIFFERED (range bounds; legacy side parametrised by `rangeLower`: `false` = the code before fix e282333,
+`true` = /repo HEAD, where legacy = SeqQL: `cons_casefold_range_bound_legacy_eq_seqql`).
 -/
 namespace SV.Consistency
 open SV.Parser SV.Tok
@@ -73,14 +74,16 @@ theorem cons_casefold_exists_independent_of_cfg (dp cs rl : Bool) (m : Option (L
     fieldFilter ⟨dp, cs, m, rl⟩ toks = fieldFilter ⟨dp, cs', m, rl⟩ toks := by
   rw [cons_casefold_exists_forces_cs_seqql ⟨dp, cs, m, rl⟩ toks p hp hn, cons_casefold_exists_forces_cs_seqql ⟨dp, cs', m, rl⟩ toks p hp hn]
 
-/-- **where the two parsers' case rules differ**: a range bound `A` under case-insensitive configuration is lowered by
-SeqQL (`parseRangeTerm` -> `parseSeqQLKeyword(value, sensitive)`, parser/token_range.go:90).  The legacy parser's
+/-- **range bounds: legacy vs SeqQL.**  A range bound `A` under case-insensitive configuration is lowered by SeqQL
+(`parseRangeTerm` -> `parseSeqQLKeyword(value, sensitive)`, parser/token_range.go:90).  The legacy parser's
 `singleTermBuilder` is modelled with the flag `Cfg.rangeLower` / `rl` (Model/LegacyParser.lean: `legacyLiteral` hands
 `legacyRange` the flag `if rl then cs else true`):
-* `rl = false` = /repo HEAD (731ccad): `singleTermBuilder{}` has no case flag and `appendRune` never lowers
-  (parser/term_builder.go:136-147, parser/token_parser.go:149) - the bound stays `A`, although index tokens are lowered;
-* `rl = true` = the proposed repair (/verif/fixes/C12-legacy-range-bounds-case.patch, not applied to /repo): the bound is
-  lowered like a literal, and the legacy parser then agrees with SeqQL.
+* `rl = true` = /repo HEAD since fix e282333: `singleTermBuilder{caseSensitive: caseSensitive}` (parser/token_parser.go:149)
+  and `appendRune` applies `unicode.ToLower` unless `caseSensitive` (parser/term_builder.go:136-152) - the bound is lowered
+  like a literal and the legacy parser agrees with SeqQL (third part; general statement:
+  `cons_casefold_range_bound_legacy_eq_seqql`);
+* `rl = false` = HISTORICAL, the code before e282333 (`singleTermBuilder{}` never lowered): the bound stayed `A` although
+  index tokens are lowered (second part) - the difference this layer reported in wave 3.
 Both parsers are different Go functions; this was never a model-vs-model disagreement. -/
 theorem cons_casefold_range_bound_seqql_ne_legacy_witness :
     let A : Rn := ⟨[65], 65, true, false, false, 97, false⟩
@@ -89,14 +92,75 @@ theorem cons_casefold_range_bound_seqql_ne_legacy_witness :
     legacyRangeTerm (if false then false else true) [A, sp] = .ok (⟨false, [65]⟩, []) ∧
     legacyRangeTerm (if true then false else true) [A, sp] = .ok (⟨false, [97]⟩, []) := by decide
 
-/-- the flag handed to the legacy range parser: with `rl = false` (HEAD) it is `true` whatever the configuration, with
-`rl = true` it is the literal's own case flag (`conf.CaseSensitive`, forced `true` for `_exists_`) - read off
-`legacyLiteral` on a range literal -/
+/-- the flag handed to the legacy range parser: with `rl = true` (HEAD, fix e282333) it is the literal's own case flag
+(`conf.CaseSensitive`, forced `true` for `_exists_`); with `rl = false` (before the fix) it was `true` whatever the
+configuration - read off `legacyLiteral` on a range literal -/
 theorem cons_casefold_legacy_range_flag (dp rl cs : Bool) (field : List Nat) (t : FT) (r : Rn) (rest : List Rn)
     (hr : r.cp = 91 ∨ r.cp = 123) :
     legacyLiteral dp rl cs field t (r :: rest) =
       (legacyRange field (if rl then (if field = tokenExists then true else cs) else true) (r :: rest)).bind
         fun p => .ok ([p.1], p.2) := by
   simp [legacyLiteral, hr]
+
+/-- a plain bound rune: what neither parser treats specially -/
+abbrev casefoldPlain (r : Rn) : Prop := r.cp ≠ 42 ∧ r.cp ≠ 92 ∧ r.space = false ∧ isSpecial r = false ∧ r.cp ≠ wildcardCp
+
+theorem casefold_parseTerms_single (cs : Bool) (ws : List Rn) (hw : ∀ r, r ∈ ws → casefoldPlain r) (d : List Nat)
+    (tb : TB) (htb : tb.cs = cs) (rest : List Rn)
+    (hrest : rest = [] ∨ ∃ r0 rs, rest = r0 :: rs ∧ r0.cp ≠ 42 ∧ r0.cp ≠ 92 ∧ (r0.space || isSpecial r0) = true) :
+    parseTerms ⟨.single, tb, false, d⟩ (ws ++ rest) = .ok (⟨.single, tb, false, d ++ lowerIf cs ws⟩, skipSpaces rest) := by
+  induction ws generalizing d with
+  | nil =>
+    rcases hrest with rfl | ⟨r0, rs, rfl, h1, h2, h3⟩
+    · simp [parseTerms, lowerIf]
+    · rw [List.nil_append, parseTerms.eq_def]
+      simp [h1, h2, h3, lowerIf]
+  | cons r ws ih =>
+    obtain ⟨h1, h2, h3, h4, _⟩ := hw r (by simp)
+    rw [List.cons_append, parseTerms.eq_def]
+    simp only [h1, h2, h3, h4, if_false, Bool.or_self, Bool.false_eq_true]
+    simp only [BSt.appendRune, Bool.false_eq_true, if_false, htb]
+    rw [ih (fun x hx => hw x (by simp [hx]))]
+    simp [lowerIf, List.append_assoc]
+
+/-- **at HEAD the legacy range bound = the SeqQL range bound, for every configuration** (`cs` = the case flag both
+parsers hand to their range-term reader; at HEAD `rl = true`, so both get `conf.CaseSensitive`, or `true` for
+`_exists_`).  For a bound written as a non-empty run `ws` of plain runes (no `*`, `\`, space, special symbol, wildcard),
+ended by the end of input or by a space / special symbol on the legacy side and delivered as one unquoted composite token
+on the SeqQL side: both readers return the text term `lowerIf cs ws`.
+Go: `tokenParser.parseRangeTerm` (+ `singleTermBuilder`) vs `parseRangeTerm` of parser/token_range.go. -/
+theorem cons_casefold_range_bound_legacy_eq_seqql (cs : Bool) (ws : List Rn) (hne : ws ≠ [])
+    (hw : ∀ r, r ∈ ws → casefoldPlain r) (rest : List Rn)
+    (hrest : rest = [] ∨ ∃ r0 rs, rest = r0 :: rs ∧ r0.cp ≠ 42 ∧ r0.cp ≠ 92 ∧ (r0.space || isSpecial r0) = true)
+    (t : LTok) (ht : t.rs = ws) (hk : t.kw ≠ .empty) (hc : isComposite t = true) :
+    legacyRangeTerm cs (ws ++ rest) = .ok (⟨false, lowerIf cs ws⟩, skipSpaces rest) ∧
+    rangeTerm cs [t] = .ok (⟨false, lowerIf cs ws⟩, []) := by
+  constructor
+  · obtain ⟨r, ws', rfl⟩ := List.exists_cons_of_ne_nil hne
+    have hr := hw r (by simp)
+    have hq : startsWithQuote (r :: ws' ++ rest) = false := by
+      have : r.cp ≠ 34 := by
+        intro h34
+        have := hr.2.2.2.1
+        simp [isSpecial, h34] at this
+      simp [startsWithQuote, this]
+    unfold legacyRangeTerm
+    simp only [hq, Bool.false_eq_true, if_false]
+    have := casefold_parseTerms_single cs (r :: ws') hw [] ⟨cs, [], [], []⟩ rfl rest hrest
+    rw [show newBuilder .single cs = ⟨.single, ⟨cs, [], [], []⟩, false, []⟩ from rfl, this]
+    simp [PRes.bind, BSt.getTerm, lowerIf]
+  · have hcomp : compositeToken [t] = .ok (ws, []) := by
+      simp [compositeToken, hk, hc, joinComposite, ht]
+    have hkw := seqqlKeyword_plain cs ws hne (fun r hr => (hw r hr).2.2.2.2)
+    simp [rangeTerm, hcomp, PRes.bind, hkw]
+
+/-- non-vacuity: the bound `Ab` followed by a space / as the token `Ab` -/
+example : let A : Rn := ⟨[65], 65, true, false, false, 97, false⟩
+    let b : Rn := ⟨[98], 98, true, false, false, 98, false⟩
+    (∀ r, r ∈ [A, b] → casefoldPlain r) ∧ isComposite ⟨[A, b], false, false, .none⟩ = true := by
+  refine ⟨?_, by decide⟩
+  intro r hr
+  simp only [List.mem_cons, List.not_mem_nil, or_false] at hr
+  rcases hr with rfl | rfl <;> decide
 
 end SV.Consistency
